@@ -30,7 +30,7 @@ pub struct Plan {
     pub sev: Option<&'static str>,
 }
 
-const LEX: [&str; 9] = ["a", "b", "ab", " a", "a ", "", "  ", "B", "a1"];
+const LEX: [&str; 11] = ["a", "b", "ab", " a", "a ", "", "  ", "B", "a1", "\u{a0}b", "\u{3000}ab "];
 const NUM: [&str; 9] = ["2", "10", "9.5", "-3", "0", "-0", "1e3", "", " 7 "];
 const NUM_BAD: [&str; 3] = ["x", "1_0", "--2"];
 const GROUP_PAT: &str = "id=(?P<value>[^ ]+)";
@@ -42,14 +42,14 @@ const PLAIN_NUM_PAT: &str = "-?[0-9]+(\\.[0-9]+)?";
 const PLAIN_NUM: [&str; 7] = ["10 .", ".. 2", "9.5", "-3 ..", "..", "", "2 10"];
 const DIRS: [(&str, bool); 7] = [("asc", true), ("desc", false), ("", true), ("ASC", true), ("Desc", false), (" ", true), ("dEsC", false)];
 
-const UNIQ: [&str; 9] = ["a", "b", " a", "a ", "a  b", "A", "", "  ", "\ta"];
+const UNIQ: [&str; 11] = ["a", "b", " a", "a ", "a  b", "A", "", "  ", "\ta", "\u{a0}a", "\u{3000} b"];
 const UNIQ_GROUP_PAT: &str = "id=(?P<value>\\w+)";
 const UNIQ_GROUP: [&str; 7] = ["id=a x", "id=a y", "id=b", "x id=a", "noid", "", "id=ab"];
 const UNIQ_PLAIN_PAT: &str = "\\w+";
 const UNIQ_PLAIN: [&str; 7] = ["a x", "a y", "b", " a", "..", "", ".. b"];
 
 const LP_PATS: [&str; 6] = ["^[a-z]+$", "[0-9]", "^k", "[0-9]+$", "^(abc|k9)$", "b"];
-const LP: [&str; 9] = ["abc", "ab1", " abc ", "k9", "9k", "", "  ", "ABC", "\tb"];
+const LP: [&str; 11] = ["abc", "ab1", " abc ", "k9", "9k", "", "  ", "ABC", "\tb", "\u{a0}9k", "\u{3000}ABC\u{a0}"];
 
 const UNI: [&str; 6] = ["é", "ü1", "日本", "a", "éa", "z"];
 
